@@ -265,6 +265,8 @@ def run(ctx):
     ctx.sample({'pair': [canonical(pairs['en'][0][0]), canonical(pairs['en'][0][1])]})
     ctx.sample({'conflict_pair': ['S[X]/(S[X]\\NP[X])', 'S[dcl]\\NP[b]']})
     ctx.extra['skipped_unsupported'] = common.compare_with_model(ctx, setup_lines + cases)
+    import cli_common
+    cli_common.cli_suite(ctx, ctx.budget(16, 160))      # the same through the command line itself
     common.conclude(ctx)
 
 
